@@ -37,6 +37,28 @@ class Registry:
         self.ctypes = {}           # C type name -> Sort (Cython front end)
         self.order_keys = {}       # cls -> field by which objects of that class are ordered (<, >)
         self.pointees = set()      # classes that model the target of a C pointer (ptr[0] dereferences)
+        self.ghost_init = {}       # cls -> callable(eng, st, obj): initial values of ghost fields of a freshly constructed object
+        self.iter_fields = {}      # cls -> list field that `for x in obj` iterates over
+        self.imported = {}         # qualname -> contract module where the imported contract is proved
+
+    def import_proved(self, other, modname, names):
+        """Use contracts proved in another contract module at call sites of this one (modular reasoning across files): the
+        classes, ghost fields, spec functions and store hooks they talk about are shared, the contracts are marked assumed *here*
+        and recorded with the module that discharges them."""
+        for cls, f in other.classes.items():
+            self.classes.setdefault(cls, f)
+            self.named_sorts.setdefault(cls, REF(cls))
+        self.ghost_fields |= other.ghost_fields
+        for k in ("ctor_fields", "ctor_defaults", "spec_functions", "store_hooks", "ghost_deps", "ghost_init", "iter_fields", "order_keys"):
+            for a, b in getattr(other, k).items():
+                getattr(self, k).setdefault(a, b)
+        import copy
+        for q in names:
+            c = copy.copy(other.contracts[q])
+            c.assumed = True
+            c.proved_in = modname
+            self.contracts[q] = c
+            self.imported[q] = modname
 
     def declare_class(self, cls, fields, ctor=None):
         d = {}
